@@ -75,11 +75,11 @@ def near_miss_case(rng, gpg: bool):
 def run(ck: Check) -> None:
     rng = ck.rng
     cases = []
-    for i in range(400 if ck.thorough else 70):
+    for i in range(ck.n(400, 70)):
         gpg = bool(i % 2)
         role, u, t = near_miss_case(rng, gpg)
         cases.append(Case("vdeleg", [role, u, t, gpg], tag="near-miss-role", group=100000 + i))
-    for i in range(3000 if ck.thorough else 500):
+    for i in range(ck.n(3000, 500)):
         gpg = bool(i % 2)
         role, u, t = deleg_case(rng, gpg)
         tag = "deleg"
